@@ -415,9 +415,12 @@ class Scheduler:
             t0.lock.release()
             self.done_event.wait()
             for t in self.tasks:
-                t.real.join(10)
+                t.real.join(60)
                 if t.real.is_alive():
-                    raise HarnessError("task %s (%s) did not unwind" % (t.lname, t.role))
+                    fr = sys._current_frames().get(t.real.ident)
+                    stack = "".join(traceback.format_stack(fr)[-6:]) if fr is not None else "?"
+                    raise HarnessError("task %s (%s) did not unwind (outcome %s, state %s, aborting %s):\n%s" % (
+                        t.lname, t.role, self.outcome, t.state, self.aborting, stack))
         finally:
             _CUR = None
         r = ExecResult()
